@@ -74,12 +74,19 @@ func main() {
 				os.Exit(3)
 			}
 			vocab[id] = token.Token{Type: token.ALIAS_PARAMETER, Literal: "<p>", AliasInfo: &ddptypes.ParameterType{Type: typ, IsReference: fs[2] == "1"}}
+		case "PN": // alias parameter whose type could not be parsed: no AliasInfo
+			id, _ := strconv.Atoi(fs[1])
+			if id%2 == 0 {
+				vocab[id] = token.Token{Type: token.ALIAS_PARAMETER, Literal: "<p>"}
+			} else { // type information present but without a type
+				vocab[id] = token.Token{Type: token.ALIAS_PARAMETER, Literal: "<p>", AliasInfo: &ddptypes.ParameterType{Type: nil, IsReference: true}}
+			}
 		case "Q":
 			n := len(vocab)
 			for i := 0; i < n; i++ {
 				t := vocab[i]
 				name := "-"
-				if t.AliasInfo != nil {
+				if t.AliasInfo != nil && t.AliasInfo.Type != nil {
 					name = hex.EncodeToString([]byte(ddptypes.GetUnderlying(t.AliasInfo.Type).String()))
 					isl := 0
 					if ddptypes.IsList(t.AliasInfo.Type) {
